@@ -98,7 +98,13 @@ def sensitivity(args, drv):
             if caught:
                 # the replay file must reproduce the violation exactly, in a fresh process, on the same tree
                 rp = [l.split("replay=", 1)[1].strip() for l in r.stdout.splitlines() if l.startswith("VIOLATION property=")][0]
-                r2 = subprocess.run([os.path.join(VERIF, "check"), "replay", rp], env=env, capture_output=True, text=True)
+                # (a race report replays through the happens-before detector, but the race pass lets the Go runtime
+                # choose the interleaving: up to three attempts for those)
+                tries = 3 if ".race " in (line[0] if line else "") or "rule=C16.race" in r.stdout or "rule=C18.race" in r.stdout else 1
+                for _ in range(tries):
+                    r2 = subprocess.run([os.path.join(VERIF, "check"), "replay", rp], env=env, capture_output=True, text=True)
+                    if r2.returncode == 1:
+                        break
                 if r2.returncode != 1:
                     status = "REPLAY-FAILED(exit %d)" % r2.returncode
             return c, status, (line[0].strip()[:160] if line else "")
